@@ -122,3 +122,13 @@ Proof. intros [|] [|] [|] [H|H]; try discriminate; reflexivity. Qed.
 Lemma remove_double_fault_repaired :
   remove_attempts true [(true, true); (false, false)] r0 = ({| r_store := false; r_cache := false |}, true).
 Proof. reflexivity. Qed.
+
+(* the code as it stands (96d76da): ANY sequence of storage failures (Commit and/or reload, any number in a
+   row) followed by working storage completes the removal *)
+Lemma remove_any_faults_undo : forall fs,
+  remove_attempts_undo (fs ++ [(false, false)]) r0 = ({| r_store := false; r_cache := false |}, true).
+Proof.
+  unfold r0. induction fs as [|[c l] r IH]; [reflexivity|].
+  cbn [app remove_attempts_undo]. destruct c; [|reflexivity].
+  cbn. exact IH.
+Qed.
